@@ -197,6 +197,16 @@ def runOp (st : MState) (op : Json) : E (MState × Json) := do
     match setMatch (stepsOfJson p) src cascade h v with
     | (h', .ok m) => return finish { st with heap := h' } "match" (matchPre m) (some m.data)
     | (h', .error e) => return finishErr { st with heap := h' } (errJ e)
+  | [.str "mset", sp, k, p, vs, .bool cascade] => do
+    let k ← getNatJ k
+    let (ms, _) := drain (wcx st.heap) (stepsOfJson sp st.heap).toArray src (k+1) freshIter
+    match ms[k]? with
+    | none => return finish st "nosrc" [] none
+    | some sm =>
+      let (h, v) ← decValSpec st vs
+      match setMatch (stepsOfJson p) (.nested sm) cascade h v with
+      | (h', .ok m) => return finish { st with heap := h' } "match" (matchPre m) (some m.data)
+      | (h', .error e) => return finishErr { st with heap := h' } (errJ e)
   | [.str "pop", p, d] => do
     let (h, dv) ← decDflt st d
     match pop (stepsOfJson p) src dv h with
